@@ -1,5 +1,6 @@
 (* C18 — Per-node data behaves like an atomic optional slot.  Property theorems only. *)
-From CsModel Require Import Red RedProofs Conc ConcProofs ConcData.
+From CsModel Require Import Red RedProofs Conc ConcProofs ConcData ConcPayload.
+From Coq Require Import ZArith.
 
 (* a data operation is one machine step, and that step is the sequential optional-slot operation
    on the data of its tree position: new content and result as specified, every other position and
@@ -29,3 +30,12 @@ Theorem C18_try_set_exclusive : forall cur r v,
   (forall x, cur = Some x -> dspec cur (KTrySet r v) = (Some x, RTrySet false v)).
 Proof. exact try_set_exclusive. Qed.
 Print Assumptions C18_try_set_exclusive.
+
+(* every stored value is dropped exactly once: at every reachable state the values created so far are
+   those still stored plus those dropped; when all threads are done all of them have been dropped *)
+Theorem C18_payloads_dropped_once : forall g progs s,
+  Reach g progs s ->
+  (Z.of_nat (c_payload_drops s) + Z.of_nat (length (c_data s)) = sumT createdT (c_threads s))%Z /\
+  (progs <> [] -> all_done s = true -> Z.of_nat (c_payload_drops s) = sumT createdT (c_threads s)).
+Proof. exact payloads_dropped_once. Qed.
+Print Assumptions C18_payloads_dropped_once.
